@@ -4,11 +4,12 @@
    Vocabulary (model/Paging.v): `run_from clear filtered flt choose strict st PHead steps` is the list of pages a client
    gets that starts at the head of store `st` and chains pages by the resume kinds of `steps` (each step: kind,
    limit, WaitTimeout > 0, appends that happen before the page). `clear` = does LogEvent.Unmarshal clear Fields
-   (false on the unchanged tree); `filtered`/`flt` = the WHERE/RANGE filter; `choose` = which source the merge
+   (true: the code; false: the code before its repair); `filtered`/`flt` = the WHERE/RANGE filter; `choose` = which source the merge
    delivers next (any function: every merge order, every Go map order). `events_of p` restricts to partition p,
    `part_events st p` are the stored events of partition p in stored order, `pos_of st p pos` is the flat index of
    partition p's position inside a Pos string, `eff_flt` the filter in effect. *)
 From LR Require Import lib.Base model.Paging proofs.PagingP.
+From LR Require Import proofs.PagingContentP.
 From Coq Require Import Permutation.
 
 (* ---- pages, no appends: for every store, filter, merge order, limit script and resume script over
@@ -106,17 +107,23 @@ Definition ex1_steps : list pstep := [mkStep RSame 1 true []; mkStep RSame 1 tru
 Lemma ex1_wf : wf_store ex1_store.
 Proof. split; [repeat constructor; intros []|repeat constructor]. Qed.
 
-(* refuted on the unchanged tree (clear = false): the retried page delivers event 2 with the fields of event 3 *)
-Theorem C03_content_refuted : ~ C03_content_statement false false.
+(* the code (LogEvent.Unmarshal resets Fields when the record has none: clear = true), whatever the provider does with
+   a cached cursor (strict or not), whatever positions the requests name: proved for all five kinds *)
+Theorem C03_content : forall strict, C03_content_statement true strict.
+Proof. intros strict filtered flt choose st steps _ ev. exact (delivered_are_stored_all filtered flt choose strict st steps ev). Qed.
+Print Assumptions C03_content.
+
+(* the variant before the repair (clear = false) refutes it: the retried page delivers event 2 with the fields of event 3 *)
+Theorem C03_content_kept_fields_refuted : ~ C03_content_statement false false.
 Proof.
   intros H. specialize (H false (fun _ => true) choose_min ex1_store ex1_steps ex1_wf (mkOev 0 2 [x62] [x73; x3d; x78])).
   assert (In (mkOev 0 2 [x62] [x73; x3d; x78]) (concat (map rs_events (run_from false false (fun _ => true) choose_min false ex1_store PHead ex1_steps)))) as Hin
     by (vm_compute; right; right; left; reflexivity).
   specialize (H Hin). vm_compute in H. repeat (destruct H as [H|H]; [discriminate H|]). exact H.
 Qed.
-Print Assumptions C03_content_refuted.
+Print Assumptions C03_content_kept_fields_refuted.
 
-(* proved for the four kinds of the property, whatever Unmarshal does *)
+(* for the four kinds of the property it holds whatever Unmarshal does (also for the variant before the repair) *)
 Theorem C03_content_partial : forall clear filtered flt choose strict st steps, wf_store st -> no_retry steps ->
   forall ev, In ev (concat (map rs_events (run_from clear filtered flt choose strict st PHead steps))) ->
   In ev (map (obs (o_src ev)) (part_events (final_store st steps) (o_src ev))).
@@ -162,8 +169,8 @@ Example C03_ex_run :
   /\ last_page_short ex3_steps (run_from false false (fun _ => true) choose_min false ex3_store PHead ex3_steps).
 Proof. vm_compute. split; [reflexivity|lia]. Qed.
 
-(* ---- the two witnesses under the proposed repairs (what flipping `repo_clears_fields` / `repo_strict_pos` means):
-   with Unmarshal clearing Fields the retried page of ex1 carries the stored fields; with a provider that never
+(* ---- the two witnesses under the repairs (what `repo_clears_fields` / `repo_strict_pos` = true mean):
+   with Unmarshal clearing Fields (the code) the retried page of ex1 carries the stored fields; with a provider that never
    re-positions a cached cursor the retried page of ex2 is the page delivered before *)
 Example C03_ex_fixed_fields :
   map (fun r => map (fun e => (o_ts e, o_flds e)) (rs_events r)) (run_from true false (fun _ => true) choose_min false ex1_store PHead ex1_steps)
